@@ -380,6 +380,15 @@ func (e *kvElection) becomeLeader(token string, rev uint64) {
 		return
 	}
 
+	// Another acquisition round of this instance may have won while this one
+	// was in flight (e.g. the first term's record was deleted underneath).
+	// A term is started once: keep the running term, its token and its
+	// loops; if the record no longer matches, the heartbeat or the
+	// validation of that term notices and demotes.
+	if e.isLeader.Load() {
+		return
+	}
+
 	fromState := StateInit
 	if s := e.state.Load(); s != nil {
 		if str, ok := s.(string); ok {
